@@ -33,7 +33,7 @@ except Exception:  # stand-alone use
             h.update(open(p, "rb").read())
         return h.hexdigest()[:16]
 
-FILES = ["src/fs/fimg.rs", "src/bios/bpb.rs", "src/img/woz.rs", "src/img/woz2.rs", "src/lang/applesoft/tokenizer.rs",
+FILES = ["src/fs/fimg.rs", "src/bios/bpb.rs", "src/bios/fat.rs", "src/fs/fat/mod.rs", "src/img/imd.rs", "src/img/td0.rs", "src/img/dot2mg.rs", "src/img/dsk_do.rs", "src/img/dsk_po.rs", "src/img/nib.rs", "src/fs/pascal/mod.rs", "src/fs/pascal/types.rs", "src/img/woz.rs", "src/img/woz2.rs", "src/lang/applesoft/tokenizer.rs",
          "src/lang/applesoft/mod.rs", "src/lang/applesoft/settings.rs", "src/lang/applesoft/token_maps.rs",
          "src/lang/integer/tokenizer.rs", "src/lang/integer/mod.rs", "src/lang/integer/settings.rs",
          "src/lang/integer/token_maps.rs"]
@@ -179,6 +179,123 @@ def generate(repo):
                  "if next+8 > buf.len() { next = 0; }", "INFO_ID | TMAP_ID | TRKS_ID | WRIT_ID | META_ID => {"]:
         if ws(frag) not in woz:
             raise TranslatorError("c12: get_next_chunk is not in the modelled form")
+
+    # ---- FAT cluster chains (no flags: the code is repaired; the guards the theorems rely on must be present) ---
+    fatrs = rd("src/bios/fat.rs")
+    gc = ws(fn_body(fatrs, r"pub fn get_cluster\s*\(", "fat::get_cluster"))
+    for frag in ["12 => { let offset = n + (n/2); let val16 = u16::from_le_bytes([buf[offset],buf[offset+1]]);",
+                 "16 => { let offset = n*2; u16::from_le_bytes([buf[offset],buf[offset+1]]) as u32",
+                 "32 => { let offset = n*4; u32::from_le_bytes(buf[offset..offset+4].try_into()"]:
+        if ws(frag) not in gc:
+            raise TranslatorError("c12: fat::get_cluster is not in the modelled form")
+    fatfs = rd("src/fs/fat/mod.rs")
+    cir = ws(fn_body(fatfs, r"fn clus_in_rng\s*\(", "fat clus_in_rng"))
+    if cir != ws("{ block >= fat::FIRST_DATA_CLUSTER as usize && block < fat::FIRST_DATA_CLUSTER as usize + self.boot_sector.cluster_count_usable() as usize }"):
+        raise TranslatorError("c12: fat clus_in_rng is not the range test against cluster_count_usable")
+    ccu = ws(fn_body(bpb, r"pub fn cluster_count_usable\s*\(", "cluster_count_usable"))
+    if ws("u64::min( self.data_rgn_secs()/self.foundation.sec_per_clus() as u64, self.fat_secs() * self.sec_size() * 8 / typ - FIRST_DATA_CLUSTER as u64 )") not in ccu:
+        raise TranslatorError("c12: cluster_count_usable is not in the modelled form")
+    nc = ws(fn_body(fatfs, r"fn next_cluster\s*\(", "fat next_cluster"))
+    if ws("if !self.clus_in_rng(n) {") not in nc or nc.index(ws("if !self.clus_in_rng(n) {")) > nc.index(ws("self.get_fat_buffer()")):
+        raise TranslatorError("c12: fat next_cluster does not test the range before using the FAT buffer")
+    gd = ws(fn_body(fatfs, r"fn get_cluster_chain_data\s*\(", "fat get_cluster_chain_data"))
+    if ws("for _i in 0..max_clusters { if !self.clus_in_rng(curr.unwrap()) {") not in gd or ws("let max_clusters = self.boot_sector.cluster_count_usable() as usize;") not in gd:
+        raise TranslatorError("c12: fat get_cluster_chain_data lost its range test or its iteration cap")
+    gl = ws(fn_body(fatfs, r"fn get_cluster_chain_length\s*\(", "fat get_cluster_chain_length"))
+    if ws("if !self.clus_in_rng(c as usize) {") not in gl or ws("for _i in 0..max_clusters {") not in gl:
+        raise TranslatorError("c12: fat get_cluster_chain_length lost its range test or its iteration cap")
+
+    # ---- IMD (guards that the no-panic theorem of the IMD front relies on) ----------------------------------
+    imd = rd("src/img/imd.rs")
+    m = re.search(r"impl DiskStruct for Track \{", imd)
+    if not m:
+        raise TranslatorError("c12: impl DiskStruct for Track not found in imd.rs")
+    iu = ws(fn_body(imd[m.end():], r"fn update_from_bytes\s*\(", "imd Track::update_from_bytes"))
+    for frag in ["check(bytes,5)?;", "if self.sector_shift==0xff {", "if self.sector_shift>6 {", "let mut ptr: usize = 5; check(bytes,ptr+self.sectors as usize)?;",
+                 "if self.head & CYL_MAP_FLAG == CYL_MAP_FLAG { check(bytes,ptr+self.sectors as usize)?;",
+                 "if self.head & HEAD_MAP_FLAG == HEAD_MAP_FLAG { check(bytes,ptr+self.sectors as usize)?;",
+                 "for _lsec in 0..self.sectors { check(bytes,ptr+1)?; if SectorData::from_u8(bytes[ptr]).is_none() {",
+                 "let sec_size = self.get_sec_buf_size(bytes[ptr]); check(bytes,ptr+sec_size)?; self.track_buf.append(&mut bytes[ptr..ptr+sec_size].to_vec()); ptr += sec_size;"]:
+        if ws(frag) not in iu:
+            raise TranslatorError("c12: imd Track::update_from_bytes lost a guard or is not in the modelled form (%s)" % frag[:40])
+    gs = ws(fn_body(imd, r"fn get_sec_buf_size\s*\(", "imd get_sec_buf_size"))
+    for frag in ["let sec_size = SECTOR_SIZE_BASE << self.sector_shift;", "Some(SectorData::None) => 1,", "Some(SectorData::Normal) => 1 + sec_size,",
+                 "Some(SectorData::NormalCompressed) => 2,", "Some(SectorData::ErrorCompressedDeleted) => 2,", "Some(SectorData::ErrorDeleted) => 1 + sec_size,"]:
+        if ws(frag) not in gs:
+            raise TranslatorError("c12: imd get_sec_buf_size is not in the modelled form")
+    if not re.search(r"pub const SECTOR_SIZE_BASE\s*:\s*usize\s*=\s*128\s*;", imd) or not re.search(r"pub const CYL_MAP_FLAG\s*:\s*u8\s*=\s*0x80\s*;", imd) \
+            or not re.search(r"pub const HEAD_MAP_FLAG\s*:\s*u8\s*=\s*0x40\s*;", imd) or ws("ErrorCompressedDeleted = 8") not in ws(imd) or ws("None = 0,") not in ws(imd):
+        raise TranslatorError("c12: imd constants are not the modelled ones")
+    ifb = ws(fn_body(imd[imd.index("impl img::DiskImage for Imd"):], r"fn from_bytes\s*\(", "Imd::from_bytes"))
+    for frag in ["if data.len()<29 {", "for i in 29..data.len() { if data[i]==0x1a { ptr = i; break; } } if ptr==0 {",
+                 "if let Ok(comment) = String::from_utf8(data[29..ptr].to_vec()) {", "while ptr<data.len() { let compressed = Track::from_bytes_adv(&data[ptr..],&mut ptr)?;",
+                 "ans.tracks.push(compressed.expand()); } if ans.tracks.len()==0 {"]:
+        if ws(frag) not in ifb:
+            raise TranslatorError("c12: Imd::from_bytes lost a guard or is not in the modelled form (%s)" % frag[:40])
+
+    # ---- Pascal directory read path ---------------------------------------------------------------------------
+    pas = rd("src/fs/pascal/mod.rs")
+    gdir = ws(fn_body(pas, r"fn get_directory\s*\(img", "pascal get_directory"))
+    for frag in ["ans.header = VolDirHeader::from_bytes(&buf[0..ENTRY_SIZE])?;", "if beg0!=0 || end<=beg || (end as usize)>ans.total_blocks() {",
+                 "for iblock in beg..end { let mut temp = img.read_block(Block::PO(iblock as usize))?; buf.append(&mut temp); }",
+                 "let max_num_entries = buf.len()/ENTRY_SIZE - 1; let mut offset = ENTRY_SIZE; for _i in 0..max_num_entries { ans.entries.push(DirectoryEntry::from_bytes(&buf[offset..offset+ENTRY_SIZE])?); offset += ENTRY_SIZE; }",
+                 "if u16::from_le_bytes(ans.header.num_files) as usize > ans.entries.len() {"]:
+        if ws(frag) not in gdir:
+            raise TranslatorError("c12: pascal get_directory lost a guard or is not in the modelled form (%s)" % frag[:40])
+    prf = ws(fn_body(pas, r"fn read_file\s*\(", "pascal read_file"))
+    g1 = ws("if u16::from_le_bytes(entry.bytes_remaining) as usize > BLOCK_SIZE*ans.chunks.len() {")
+    g2 = ws("BLOCK_SIZE as u32*ans.chunks.len() as u32 - u16::from_le_bytes(entry.bytes_remaining) as u32")
+    if g1 not in prf or g2 not in prf or prf.index(g1) > prf.index(g2):
+        raise TranslatorError("c12: pascal read_file does not guard the end-of-file subtraction")
+    pty = rd("src/fs/pascal/types.rs")
+    if not re.search(r"pub const BLOCK_SIZE\s*:\s*usize\s*=\s*512\s*;", pty) or not re.search(r"pub const ENTRY_SIZE\s*:\s*usize\s*=\s*26\s*;", pty) \
+            or not re.search(r"pub const VOL_HEADER_BLOCK\s*:\s*usize\s*=\s*2\s*;", pty):
+        raise TranslatorError("c12: pascal constants are not the modelled ones")
+
+    # ---- 2MG header --------------------------------------------------------------------------------------------
+    mg = rd("src/img/dot2mg.rs")
+    mfb = ws(fn_body(mg[mg.index("impl img::DiskImage for Dot2mg"):], r"fn from_bytes\s*\(", "Dot2mg::from_bytes"))
+    seq = ["if data.len()<64 {", "let header = Header::from_bytes(&data[0..64].to_vec())?;", "if fmt>2 {", "if data.len()<offset+len {",
+           "&data[offset..offset+len]", "if data.len()<comment_off+comment_len {", "data[comment_off..comment_off+comment_len]",
+           "if data.len()<creator_offset+creator_len {", "data[creator_offset..creator_offset+creator_len]",
+           "if fmt==1 && blocks as usize * BLOCK_SIZE as usize != raw_img.byte_capacity() {"]
+    pos = -1
+    for frag in seq:
+        k = mfb.find(ws(frag), pos + 1)
+        if k < 0:
+            raise TranslatorError("c12: Dot2mg::from_bytes lost a guard or its order changed (%s)" % frag[:40])
+        pos = k
+    for path, rx, what in [("src/img/dsk_do.rs", r"data\.len\(\)%BLOCK_SIZE > 0 \|\| data\.len\(\)/BLOCK_SIZE > MAX_BLOCKS \|\| data\.len\(\)/BLOCK_SIZE < MIN_BLOCKS", "DO size rule"),
+                           ("src/img/dsk_po.rs", r"data\.len\(\)%BLOCK_SIZE > 0 \|\| data\.len\(\)/BLOCK_SIZE > MAX_BLOCKS \|\| data\.len\(\)/BLOCK_SIZE < MIN_BLOCKS", "PO size rule")]:
+        t = rd(path)
+        if not re.search(rx, t) or not re.search(r"const MAX_BLOCKS\s*:\s*usize\s*=\s*65535\s*;", t) or not re.search(r"const MIN_BLOCKS\s*:\s*usize\s*=\s*280\s*;", t):
+            raise TranslatorError("c12: %s is not in the modelled form" % what)
+    nib = rd("src/img/nib.rs")
+    if not re.search(r"pub const TRACK_BYTE_CAPACITY_NIB\s*:\s*usize\s*=\s*6656\s*;", nib) or not re.search(r"pub const TRACK_BYTE_CAPACITY_NB2\s*:\s*usize\s*=\s*6384\s*;", nib):
+        raise TranslatorError("c12: nibble track capacities are not the modelled ones")
+
+    # ---- TD0 (repairs proposed in c12-td0-from-bytes-checks.diff: flags, as they may not be applied yet) ------
+    td0 = rd("src/img/td0.rs")
+    tfb = ws(fn_body(td0[td0.index("impl img::DiskImage for Td0"):], r"fn from_bytes\s*\(", "Td0::from_bytes"))
+    term = choose(tfb, "while expanded[ptr]!=0xff {", "while ptr<expanded.len() && expanded[ptr]!=0xff {", "TD0 track loop condition")
+    flags.append(("td0TermGuard", term, "Td0::from_bytes tests the bound before looking for the 0xFF terminator"))
+    sg = ws("if sec.header.sector_shift>6 {")
+    shift_guard = sg in tfb and tfb.index(sg) < tfb.index(ws("sec.unpack()"))
+    flags.append(("td0ShiftGuard", shift_guard, "Td0::from_bytes refuses sector size codes above 6 before any `128 << shift`"))
+    tg = ws("if ans.tracks.len()==0 {")
+    tracks_guard = tg in tfb and tfb.index(tg) < tfb.index(ws("ans.tracks[0]"))
+    flags.append(("td0TracksGuard", tracks_guard, "Td0::from_bytes refuses an image without track records before `tracks[0]`"))
+    up = ws(fn_body(td0, r"fn unpack\s*\(&self\)", "td0 Sector::unpack"))
+    for frag in ["let sector_size: usize = SECTOR_SIZE_BASE << self.header.sector_shift;", "if self.header.flags & NO_DATA_MASK > 0 {",
+                 "let end = verified_get_slice!(self.data,ptr,2,&loc).to_vec();", "let encoding_code = verified_get_byte!(self.data,ptr,&loc);",
+                 "ans.append(&mut verified_get_slice!(self.data,ptr,sector_size,&loc).to_vec());", "let b = verified_get_slice!(self.data,ptr,4,&loc).to_vec();",
+                 "let read_count = 2*(verified_get_byte!(self.data,ptr,&loc) as usize);", "ans.append(&mut verified_get_slice!(self.data,ptr,rw_count,&loc).to_vec());",
+                 "let buf = verified_get_slice!(self.data,ptr,read_count,&loc).to_vec();"]:
+        if ws(frag) not in up:
+            raise TranslatorError("c12: td0 Sector::unpack is not in the modelled form (%s)" % frag[:40])
+    if ws("match $ptr < $slf.$ibuf.len() { true => { $ptr += 1; $slf.$ibuf[$ptr-1] },") not in ws(td0) or \
+            ws("match $ptr + $len <= $slf.$ibuf.len() { true => { $ptr += $len; &$slf.$ibuf[$ptr-$len..$ptr] },") not in ws(td0):
+        raise TranslatorError("c12: td0 checked read macros are not in the modelled form")
 
     # ---- detokenizers -------------------------------------------------------------------------------------
     at = ws(fn_body(rd("src/lang/applesoft/tokenizer.rs"), r"pub fn detokenize\s*\(", "applesoft detokenize"))
